@@ -301,3 +301,183 @@ def tcp_loopback(ctx, tier, seed):
         elif len(got) != len(want):
             fails.append({"case": f"tcp-count:{data.hex()[:80]}", "detail": f"{len(got)} items vs {len(want)}", "inputs": {"data": data.hex()}})
     return _res("real loopback TCP with a concurrent sender thread vs BytesIO", f"{n} seeded streams, random chunking/bufsize/close-or-timeout", cases, fails)
+
+
+# ------------------------------------------------------------------------------------------------- messages
+def _conforming_payloads(defn, rnd, pbf=True):
+    """a few payloads laid out according to a definition (counts 0, 1, 3), from the layout oracle's grammar"""
+    from contracts.oracle import parse_def, static_size, Leaf, Bitfield, Group
+    ents = parse_def(defn)
+    outs = []
+    for cnt in (0, 1, 3):
+        buf = bytearray()
+        counts = {}
+        ok = True
+
+        def fill(entries, top):
+            nonlocal ok
+            for e in entries:
+                if isinstance(e, Leaf):
+                    n = 8 if e.typ == "CH" else e.size
+                    b = bytes(rnd.randrange(256) for _ in range(n))
+                    if top and e.typ[0] in "UIEL" and e.scale is None:
+                        counts[e.name] = (len(buf), n)
+                    buf.extend(b)
+                elif isinstance(e, Bitfield):
+                    start = len(buf)
+                    buf.extend(bytes(rnd.randrange(256) for _ in range(e.size)))
+                    if top:
+                        bo = 0
+                        for fn, w in e.flags:
+                            counts[fn] = ("bits", start, e.size, bo, w)
+                            bo += w
+                else:
+                    if isinstance(e.count, int):
+                        N = e.count
+                    elif e.count == "None":
+                        N = cnt
+                    else:
+                        c = counts.get(e.count)
+                        N = cnt
+                        if c is None:
+                            ok = False
+                            return
+                        if c[0] == "bits":
+                            _, st, sz, bo, w = c
+                            N = min(cnt, (1 << w) - 1)
+                            u = int.from_bytes(buf[st:st + sz], "little")
+                            u = (u & ~(((1 << w) - 1) << bo)) | (N << bo)
+                            buf[st:st + sz] = u.to_bytes(sz, "little")
+                        else:
+                            st, sz = c
+                            buf[st:st + sz] = N.to_bytes(sz, "little")
+                    for _ in range(N):
+                        fill(e.entries, False)
+
+        fill(ents, True)
+        if ok:
+            outs.append(bytes(buf))
+    return outs
+
+
+def str_of_messages(ctx, tier, seed):
+    """str() / repr() / identity of every message the parser returns for conforming, truncated and extended payloads of
+    every definition never raise (C08; __str__ iterates __dict__, which is not under contract)"""
+    from pyubx2 import UBXMessage, UBX_MSGIDS, UBX_PAYLOADS_GET, UBX_PAYLOADS_SET, UBX_PAYLOADS_POLL
+    import pyubx2.exceptions as ube
+    rnd = random.Random(seed + 808)
+    tabs = [UBX_PAYLOADS_GET, UBX_PAYLOADS_SET, UBX_PAYLOADS_POLL]
+    fails = []
+    cases = 0
+    names2key = {}
+    for k, v in UBX_MSGIDS.items():
+        names2key.setdefault(v, k)
+    reps = 1 if tier == "quick" else 6
+    for mode, tab in enumerate(tabs):
+        for name, defn in tab.items():
+            key = names2key.get(name)
+            if key is None:
+                continue
+            for _ in range(reps):
+                for pl in _conforming_payloads(defn, rnd):
+                    if len(key) == 3 and pl:
+                        pl = key[2:3] + pl[1:]
+                    for p2 in (pl, pl[:len(pl) // 2], pl + b"\x01\x02", b""):
+                        for pbf in (True, False):
+                            cases += 1
+                            try:
+                                m = UBXMessage(key[0:1], key[1:2], mode, payload=p2, parsebitfield=pbf) if p2 else \
+                                    UBXMessage(key[0:1], key[1:2], mode)
+                            except (ube.UBXMessageError, ube.UBXTypeError):
+                                continue
+                            except Exception as e:  # noqa
+                                fails.append({"case": f"ctor:{name}:{mode}:{p2.hex()[:60]}", "detail": f"constructor raised {type(e).__name__}: {e}"[:200],
+                                              "inputs": {"name": name, "mode": mode, "payload": p2.hex()}})
+                                continue
+                            try:
+                                str(m), repr(m), m.identity, m.length, m.payload, m.msgmode, m.serialize()
+                            except Exception as e:  # noqa
+                                fails.append({"case": f"str:{name}:{mode}:{pbf}:{p2.hex()[:60]}", "detail": f"{type(e).__name__}: {e}"[:200],
+                                              "inputs": {"name": name, "mode": mode, "payload": p2.hex(), "pbf": pbf}})
+    return _res("str/repr/identity/length/payload/msgmode/serialize of parsed messages of every definition",
+                f"every (message, mode) x conforming payloads with counts 0,1,3 x (full, half, extended, empty) x 2 views x {reps}",
+                cases, fails)
+
+
+def oracle_vs_parser(ctx, tier, seed):
+    """the layout oracle's native side against the real parser on conforming payloads (validates the oracle)"""
+    from pyubx2 import UBXMessage, UBX_MSGIDS, UBX_PAYLOADS_GET, UBX_PAYLOADS_SET, UBX_PAYLOADS_POLL
+    from contracts.oracle import native_expected
+    rnd = random.Random(seed + 909)
+    tabs = [UBX_PAYLOADS_GET, UBX_PAYLOADS_SET, UBX_PAYLOADS_POLL]
+    modes = ["GET", "SET", "POLL"]
+    fails = []
+    cases = 0
+    names2key = {}
+    for k, v in UBX_MSGIDS.items():
+        names2key.setdefault(v, k)
+    for mode, tab in enumerate(tabs):
+        for name, defn in tab.items():
+            key = names2key.get(name)
+            if key is None or name in ("CFG-VALGET", "CFG-VALSET"):
+                continue
+            for pl in _conforming_payloads(defn, rnd):
+                if len(key) == 3 and pl:
+                    pl = key[2:3] + pl[1:]
+                for pbf in (True, False):
+                    try:
+                        m = UBXMessage(key[0:1], key[1:2], mode, payload=pl, parsebitfield=pbf) if pl else None
+                    except Exception:  # noqa
+                        continue
+                    if m is None:
+                        continue
+                    d = m._get_dict(payload=pl)
+                    want = native_expected(d, pl, pbf, (modes[mode], key[0:2]))
+                    if want is None:
+                        continue
+                    cases += 1
+                    got = {k: v for k, v in m.__dict__.items() if not k.startswith("_")}
+                    if got != want and not any(isinstance(v, float) and v != v for v in got.values()):
+                        diff = [k for k in set(got) | set(want) if got.get(k) != want.get(k)][:5]
+                        fails.append({"case": f"{name}:{mode}:{pbf}:{pl.hex()[:40]}", "detail": f"differs at {diff}",
+                                      "inputs": {"name": name, "mode": mode, "payload": pl.hex(), "pbf": pbf}})
+    return _res("layout oracle (native side) == real parser on conforming payloads", "every definition x counts 0,1,3 x 2 views", cases, fails)
+
+
+def dependency_parsers(ctx, tier, seed):
+    """T-NMEA / T-RTCM (assumed contracts): the dependency parsers behind the reader raise only their own exception
+    classes on mutated sentences / frames.  Bounded native fuzz, because their code is not under contract."""
+    import io
+    from pyubx2 import UBXReader
+    rnd = random.Random(seed + 4242)
+    ubx, nmea, rtcm = _frames(rnd)
+    n = 4000 if tier == "quick" else 120000
+    fails = []
+    cases = 0
+    for i in range(n):
+        base = bytearray(rnd.choice(nmea + rtcm))
+        for _ in range(rnd.randrange(1, 4)):
+            r = rnd.random()
+            if r < 0.5 and base:
+                base[rnd.randrange(len(base))] = rnd.randrange(256)
+            elif r < 0.7 and base:
+                del base[rnd.randrange(len(base))]
+            else:
+                base.insert(rnd.randrange(len(base) + 1), rnd.choice(b",*$\r\n0123456789ABCDEFGPX\xd3\x00"))
+        data = bytes(base)
+        cases += 1
+        try:
+            for _ in UBXReader(io.BytesIO(data), quitonerror=rnd.choice([0, 1]), errorhandler=lambda e: None,
+                               validate=rnd.randrange(2)):
+                pass
+        except Exception as e:  # noqa
+            fails.append({"case": f"dep:{data.hex()}", "detail": f"{type(e).__name__}: {e}"[:200], "inputs": {"data": data.hex()}})
+    # recorded witnesses of the known dependency defect (pynmeagps 1.1.7: talker/id split of '$PUBX*...' with VALNONE)
+    for name, data in (("PUBX-star", b"$PUBX*,00,1\r\n"),):
+        cases += 1
+        try:
+            list(UBXReader(io.BytesIO(data), quitonerror=0, validate=0))
+        except Exception as e:  # noqa
+            fails.insert(0, {"case": f"known:{name}", "detail": f"{type(e).__name__} escapes UBXReader with ERR_IGNORE", "inputs": {"data": data.hex()}})
+    fails = [f for f in fails if f["case"].startswith("known:") or b"$PUBX*" not in bytes.fromhex(f["inputs"]["data"])]
+    return _res("dependency parsers behind the reader: only their own exception classes escape", f"{n} mutated NMEA/RTCM3 frames", cases, fails)
